@@ -416,6 +416,40 @@ def r19_4(ctx):
     ctx.check(R, ok, 'drop-before-drain', 'the collector must drop its sender before draining the result channel (otherwise the workers never finish)', fn=f)
 
 
+def r19_5(ctx):
+    """the concatenating input readers end only when the list of input files is exhausted"""
+    R = ctx.rule('R19.5', 'input concatenation: the row iterator ends only when no input file is left (an exhausted or empty file is skipped)', floor=2)
+    b = ctx.bin
+    its = [f for f in b.fn_list if f.impl and f.impl.get('trait_path') == 'std::iter::Iterator' and f.path.endswith('::next') and 'util::Concat' in f.path and f.kind != 'Closure']
+    if not its:
+        ctx.missing(R, 'anchor:concat', 'concatenating input iterators not found')
+        return
+    def is_inputs(x):
+        return (x[0] == 'field' and x[2] == 'inputs') or (x[0] in ('havoc', 'phi') and isinstance(x[1], tuple) and 'inputs' in x[1])
+    for f in its:
+        n = 0
+        for p in explore(f, max_visits=1, havoc=True, limit=2000):
+            if p.end != 'return':
+                continue
+            rv = p.ret()
+            if rv[0] == 'agg' and rv[1].endswith('Option::Some'):
+                continue
+            n += 1
+            pops = [d for d in p.cdecisions() if d[2][0] == 'discr' and any(is_call(x, '::pop') or is_call(x, '::next') or is_call(x, '::is_empty') for x in walk(d[2])) and
+                    any(is_inputs(x) for x in walk(d[2]))]
+            if rv[0] == 'agg' and rv[1].endswith('Option::None'):
+                exhausted = any(d[3] == 0 for d in pops if not any(is_call(x, '::is_empty') for x in walk(d[2]))) or any(d[3] == 1 for d in pops if any(is_call(x, '::is_empty') for x in walk(d[2])))
+                ctx.check(R, exhausted, 'end:%s' % f.path, 'the iterator reports the end of the input on a path where the list of input files was not found empty: the rows of all later files are dropped', fn=f)
+            elif is_call(rv, 'from_residual') and any(is_call(x, '::pop') and any(is_inputs(y) for y in walk(x)) for x in walk(rv)):
+                ctx.check(R, True, 'end:%s' % f.path, '', fn=f)         # `self.inputs.pop()?`
+            elif any((is_call(x, 'read_row') or is_call(x, 'Iterator::next') or is_call(x, '::next') or is_call(x, 'and_then')) for x in walk(rv)) and not any(is_inputs(x) for x in walk(rv)):
+                ctx.violation(R, 'end:%s' % f.path, 'the iterator returns what the CURRENT file yields (%s) without looking at the remaining files: an empty file in the middle ends the whole input and every later file is silently dropped' % fmt(rv)[:60], fn=f)
+            else:
+                ctx.undecided(R, 'end:%s' % f.path, 'a returning path of the concatenating iterator is not in a recognised form: %s' % fmt(rv)[:60], fn=f)
+        if n == 0:
+            ctx.undecided(R, 'end:%s' % f.path, 'no ending path found', fn=f)
+
+
 def run(ctx):
     if ctx.bin is None:
         ctx.missing('R19.1', 'anchor:bin', 'fst-bin facts missing')
@@ -425,3 +459,4 @@ def run(ctx):
     ctx.step(r19_3, ctx)
     ctx.step(r19_lossless, ctx)
     ctx.step(r19_4, ctx)
+    ctx.step(r19_5, ctx)
